@@ -952,3 +952,91 @@ def r_write_fifo(ctx):
     # EAGAIN keeps the buffer: in the handler of socket.error the buffer is not written unless disconnecting
     ctx.require(n_w >= 3, 'write buffer writers not found')
     ctx.expect_min(3)
+
+
+@rule('R-length-symmetry', 'the receiver rejects a frame length only for reasons the sender rules out: besides "negative", every bound '
+                           'the parser puts on the received length is enforced by send() on the length it writes')
+def r_length_symmetry(ctx):
+    P = ctx.P
+    C, send, parse, rbuf, wbuf = conn_parts(ctx)
+    ex = U.explorer(ctx, parse)
+    cfg = ex.cfg
+    lvar = None
+    for n in ast.walk(parse.node):
+        if isinstance(n, ast.Assign) and isinstance(n.targets[0], ast.Name) and any(isinstance(c, ast.Call) and isinstance(c.func, ast.Attribute) and c.func.attr == 'unpack' for c in ast.walk(n.value)):
+            lvar = n.targets[0].id
+    ctx.require(lvar, 'length variable not found')
+    disc = [n.id for n in cfg.nodes if n.kind == 'stmt' and n.ast is not None and any(isinstance(c, ast.Call) and isinstance(c.func, ast.Attribute) and c.func.attr == 'disconnect' for c in ast.walk(n.ast))]
+    n_b = 0
+    for n in cfg.nodes:
+        if n.kind != 'cond' or not isinstance(n.ast, ast.Compare) or len(n.ast.ops) != 1:
+            continue
+        l, r = n.ast.left, n.ast.comparators[0]
+        if not ((isinstance(l, ast.Name) and l.id == lvar) or (isinstance(r, ast.Name) and r.id == lvar)):
+            continue
+        other = r if isinstance(l, ast.Name) and l.id == lvar else l
+        # does an edge of this test lead straight to a disconnect?
+        rejects = False
+        for d, lab in n.succ:
+            if isinstance(lab, tuple) and lab[0] == 'cond':
+                nxt = cfg.nodes[d]
+                if d in disc or (nxt.kind == 'stmt' and d in cfg.reachable_from(d) and any(x in disc for x in [d])):
+                    rejects = True
+        if not rejects:
+            continue
+        n_b += 1
+        inst = 'receiver bound `%s`' % unparse(n.ast)
+        ctx.tick()
+        if isinstance(other, ast.Constant) and other.value == 0:
+            ctx.ok(inst, parse.loc(n.ast), 'negative lengths cannot be produced by send()')
+            continue
+        if any(P.self_attr(x, parse.self_name) == rbuf for x in ast.walk(other)):
+            continue        # availability test against the buffer, not a bound on valid frames
+        okb = any(isinstance(c, ast.Compare) and unparse(other) in unparse(c) and 'len(' in unparse(c) for c in ast.walk(send.node))
+        if okb:
+            ctx.ok(inst, parse.loc(n.ast), 'send() enforces the same bound')
+        else:
+            ctx.violation('%s:receiver-rejects-frames-the-sender-emits' % parse.qualname, parse.loc(n.ast),
+                          'the parser disconnects when `%s`, but send() writes any length: a well-formed large message is sent and can never be received, the connection '
+                          'is dropped and everything behind it is lost' % unparse(n.ast), instance=inst)
+    ctx.require(n_b >= 1, 'no rejection test on the received length')
+    ctx.expect_min(1)
+
+
+@rule('R-disconnect-idempotent', 'disconnect() clears every handle it releases (socket, poller registration), so a second call on a dead '
+                                 'connection cannot release a descriptor number the OS has meanwhile given to another connection')
+def r_disconnect_idempotent(ctx):
+    P = ctx.P
+    C, send, parse, rbuf, wbuf = conn_parts(ctx)
+    d = C.methods.get('disconnect')
+    ctx.require(d is not None, 'TcpConnection.disconnect gone')
+    n_rel = 0
+    for n in ast.walk(d.node):
+        if isinstance(n, ast.If) and isinstance(n.test, ast.Compare) and isinstance(n.test.ops[0], ast.IsNot) and isinstance(n.test.comparators[0], ast.Constant) \
+                and n.test.comparators[0].value is None:
+            a = P.self_attr(n.test.left, d.self_name)
+            if a is None:
+                continue
+            releases = [c for s_ in n.body for c in ast.walk(s_) if isinstance(c, ast.Call) and any(P.self_attr(x, d.self_name) == a for x in ast.walk(c))]
+            if not releases:
+                continue
+            n_rel += 1
+            inst = 'handle self.%s cleared after release' % a
+            ctx.tick()
+            cleared = any(isinstance(s_, ast.Assign) and P.self_attr(s_.targets[0], d.self_name) == a and isinstance(s_.value, ast.Constant) and s_.value.value is None for s_ in n.body)
+            if cleared:
+                ctx.ok(inst, d.loc(n), '`%s`; self.%s = None' % (unparse(releases[0])[:50], a))
+            else:
+                ctx.violation('TcpConnection.disconnect:handle-%s-not-cleared' % a, d.loc(n),
+                              'disconnect() releases self.%s (`%s`) but keeps the stale value: a second disconnect() on this dead object releases the same descriptor number again, '
+                              'which may by then belong to a healthy connection' % (a, unparse(releases[0])[:60]), instance=inst)
+    ctx.require(n_rel >= 2, 'release blocks not found in disconnect()')
+    # state and buffers are reset
+    inst = 'disconnect resets state and buffers'
+    ctx.tick()
+    w = set(a.attr for a in P.accesses(d) if a.kind == 'write')
+    if {rbuf, wbuf} <= w and any('state' in x for x in w):
+        ctx.ok(inst, d.loc(), '')
+    else:
+        ctx.violation('TcpConnection.disconnect:state-not-reset', d.loc(), 'disconnect() does not reset buffers and state', instance=inst)
+    ctx.expect_min(3)
